@@ -127,6 +127,55 @@ Theorem C46_prop_of_model_v2_proxy : forall tmo limit chunks os od fam src dst s
 Proof. exact prop_C46_v2_proxy. Qed.
 Print Assumptions C46_prop_of_model_v2_proxy.
 
+(* CENTRAL THEOREM (partial; the guard is stated): for every well-formed input (wf_C46: decodable, stream <= 4096
+   bytes, limit 0..4000) outside the finding classes (kf_C46 = 0) whose stream the specification classifies as "no
+   header" or "receiver's choice" (guard_C46), the property predicate evaluated by the harness holds of the model's
+   output.  For the class "conformant header" the same is proved per encoder below and above (v2 PROXY, v2 LOCAL,
+   v1 TCP4, v1 UNKNOWN); the class "malformed => refused" is not proved for all inputs (only C46_malformed_no_data). *)
+Theorem C46_central_partial : forall i,
+  wf_C46 i = true -> kf_C46 i = 0 -> guard_C46 i = true -> prop_C46 i (run_C46 i) = true.
+Proof. exact central_general. Qed.
+Print Assumptions C46_central_partial.
+
+Theorem C46_prop_of_model_v2_local : forall tmo limit chunks os od fam block tlv payload,
+  concat chunks = enc_v2 32 fam block tlv ++ payload ->
+  blen (concat chunks) <= 4096 ->
+  16 + blen (block ++ tlv) <= eff_limit limit ->
+  prop_C46 (in_C46 tmo limit chunks os od) (run_C46 (in_C46 tmo limit chunks os od)) = true
+  /\ kf_C46 (in_C46 tmo limit chunks os od) = 0.
+Proof. exact prop_C46_v2_local. Qed.
+Print Assumptions C46_prop_of_model_v2_local.
+
+Theorem C46_prop_of_model_v1_tcp4 : forall tmo limit chunks os od src dst sp dp payload,
+  concat chunks = enc_v1_tcp4 src dst sp dp ++ payload ->
+  blen (concat chunks) <= 4096 ->
+  blen src = 4 -> blen dst = 4 -> wf_bytes src = true -> wf_bytes dst = true ->
+  0 <= sp < 65536 -> 0 <= dp < 65536 ->
+  blen (enc_v1_tcp4 src dst sp dp) <= eff_limit limit ->
+  prop_C46 (in_C46 tmo limit chunks os od) (run_C46 (in_C46 tmo limit chunks os od)) = true
+  /\ kf_C46 (in_C46 tmo limit chunks os od) = 0.
+Proof. exact prop_C46_v1_tcp4. Qed.
+Print Assumptions C46_prop_of_model_v1_tcp4.
+
+Theorem C46_prop_of_model_v1_unknown : forall tmo limit chunks os od junk payload,
+  concat chunks = enc_v1_unknown junk ++ payload ->
+  blen (concat chunks) <= 4096 ->
+  (junk = [] \/ exists j, junk = 32 :: j) -> existsb (Z.eqb 10) junk = false ->
+  blen (enc_v1_unknown junk) <= eff_limit limit ->
+  prop_C46 (in_C46 tmo limit chunks os od) (run_C46 (in_C46 tmo limit chunks os od)) = true
+  /\ kf_C46 (in_C46 tmo limit chunks os od) = 0.
+Proof. exact prop_C46_v1_unknown. Qed.
+Print Assumptions C46_prop_of_model_v1_unknown.
+
+(* a generated corpus-style case (a header-less "GET /\r\n" in two chunks, silent peer) satisfies wf, guard, kf = 0;
+   the worked v2 example is well-formed *)
+Example C46_central_nonvacuous :
+  wf_C46 (VL [VZ 0; VL [VB [71; 69; 84; 32]; VB [47; 13; 10]]; VB []; VB []; VZ 1]) = true
+  /\ guard_C46 (VL [VZ 0; VL [VB [71; 69; 84; 32]; VB [47; 13; 10]]; VB []; VB []; VZ 1]) = true
+  /\ kf_C46 (VL [VZ 0; VL [VB [71; 69; 84; 32]; VB [47; 13; 10]]; VB []; VB []; VZ 1]) = 0
+  /\ wf_C46 (in_C46 false 0 ex_chunks_v2 [] []) = true.
+Proof. exact central_examples. Qed.
+
 (* Non-vacuity / concrete instances, incl. v1 (TCP4 delivered byte by byte, and the short UNKNOWN form). *)
 Example C46_ex_v2 :
   concat ex_chunks_v2 = enc_v2_proxy 17 [1; 2; 3; 4] [5; 6; 7; 8] 80 443 [9; 9; 9] ++ [104; 105]
